@@ -7,7 +7,7 @@
 From Coq Require Import List NArith ZArith Arith Bool.
 From Tongo Require Import Lib.Bits Lib.Res Spec.Sha256 Model.BocParse Model.CellHash Spec.ReprHash
   Spec.BocLayout Proofs.CellHashP Proofs.DagP Model.MsgHash Spec.MsgCanon
-  Proofs.MsgHashP Proofs.MsgHashN Proofs.MsgHashD.
+  Proofs.MsgHashP Proofs.MsgHashN Proofs.MsgHashD Proofs.MsgHashI.
 Import ListNotations.
 
 (** The hash reported for a decoded message is the representation hash of the
@@ -108,6 +108,42 @@ Theorem C16_normalized_depends_only_on :
   msg_hash H true m1 = msg_hash H true m2.
 Proof. exact normalized_depends_only_on. Qed.
 Print Assumptions C16_normalized_depends_only_on.
+
+(** Conversely, if the hash function is collision free (idealisation, a
+    hypothesis of the theorem): equal normalised hashes force the same canonical
+    destination bits, the same body bits, the same number of body references,
+    and the same hash/depth material contributed by those references. *)
+Theorem C16_normalized_injective :
+  forall (H : bytes -> bytes), (forall x y, H x = H y -> x = y) ->
+  forall d1 d2 (b1 b2 : bits * list cell) h,
+  (length (snd b1) <= 4)%nat -> (length (snd b2) <= 4)%nat ->
+  repr_hash H (canonical_cell d1 b1) = Ok h ->
+  repr_hash H (canonical_cell d2 b2) = Ok h ->
+  addr_bits (canon_dest d1) = addr_bits (canon_dest d2) /\
+  fst b1 = fst b2 /\ length (snd b1) = length (snd b2) /\
+  exists k1 k2, kids_at H 0 (snd b1) = Ok k1 /\ kids_at H 0 (snd b2) = Ok k2 /\
+                kid_material k1 = kid_material k2.
+Proof. exact normalized_injective. Qed.
+Print Assumptions C16_normalized_injective.
+
+(** ... so messages with a different destination encoding, different body bits
+    or a different number of body references have different Hash(true). *)
+Theorem C16_normalized_distinguishes :
+  forall (H : bytes -> bytes), (forall x y, H x = H y -> x = y) ->
+  forall m1 m2 s1 d1 f1 s2 d2 f2 h1 h2,
+  m_info m1 = IExtIn s1 d1 f1 -> m_info m2 = IExtIn s2 d2 f2 ->
+  addr_wf d1 -> addr_wf d2 ->
+  (length (fst (m_body m1)) <= 1023)%nat -> (length (fst (m_body m2)) <= 1023)%nat ->
+  (length (snd (m_body m1)) <= 4)%nat -> (length (snd (m_body m2)) <= 4)%nat ->
+  Forall masks_ok (snd (m_body m1)) -> Forall masks_ok (snd (m_body m2)) ->
+  hash_cell H (canonical_cell d1 (m_body m1)) = Ok h1 ->
+  hash_cell H (canonical_cell d2 (m_body m2)) = Ok h2 ->
+  (addr_bits (canon_dest d1) <> addr_bits (canon_dest d2) \/
+   fst (m_body m1) <> fst (m_body m2) \/
+   length (snd (m_body m1)) <> length (snd (m_body m2))) ->
+  msg_hash H true m1 <> msg_hash H true m2.
+Proof. exact normalized_distinguishes. Qed.
+Print Assumptions C16_normalized_distinguishes.
 
 (** Internal and external-out messages: Hash(true) is Hash(false). *)
 Theorem C16_normalized_non_ext_in :
